@@ -212,7 +212,7 @@ func (s *sharedEntryAttributes) validateLeafRefs(ctx context.Context, resultChan
 			return
 		}
 		// if required, issue error
-		resultChan <- types.NewValidationResultEntry(s.leafVariants.GetHighestPrecedence(false, false).Owner(), fmt.Errorf("missing leaf reference: failed resolving leafref %s for %s: %v", lref, s.Path().String(), err), types.ValidationResultEntryTypeError)
+		resultChan <- types.NewValidationResultEntry(s.leafVariants.GetHighestPrecedence(false, true).Owner(), fmt.Errorf("missing leaf reference: failed resolving leafref %s for %s: %v", lref, s.Path().String(), err), types.ValidationResultEntryTypeError)
 		return
 	}
 
